@@ -19,7 +19,8 @@ RULE = ('exhaustive: every dependency structure over n=3 references (125; quick)
         'exactly the unresolved references with their positions; every reference is asked at most n+2 times (bounded progress). '
         'distinct = (structure, layout, files); non-trivial = at least one reference waits for another')
 REQUIRED = {'loads': 300, 'unresolvable_reported': 30, 'success_with_postponement': 30, 'two_file_loads': 30,
-            'list_valued_layouts': 30, 'max_rounds_seen': 2}
+            'list_valued_layouts': 30, 'max_rounds_seen': 2,
+            'provider_decisions_through_needs_to_be_resolved': 300}
 ASSUMPTIONS = ['liveness is restated as bounded progress: no reference is asked more than n+2 times; a watchdog firing is inconclusive']
 
 GRAMMAR = '''
@@ -123,7 +124,7 @@ def linecol(text, off):
     return line, col
 
 
-def one(ctx, struct, kind, order, split, rep, sample=False):
+def one(ctx, struct, kind, order, split, rep, sample=False, api_wait=False):
     from textx import metamodel_from_str, TextXError, TextXSemanticError
     from textx.scoping import Postponed
     from textx.scoping.providers import ImportURI, PlainName
@@ -160,7 +161,25 @@ def one(ctx, struct, kind, order, split, rep, sample=False):
             if asked[i] > bound:
                 raise BoundExceeded('reference r%d asked %d times (bound %d)' % (i, asked[i], bound))
             w = struct[i]
-            if w == 'never' or not (w <= resolved):
+            if api_wait and w != 'never':
+                # the provider decides with textX's own query (textx.scoping.tools.needs_to_be_resolved) whether the
+                # references it waits for are resolved - asked about objects of this and of the other model
+                from textx.scoping.tools import needs_to_be_resolved
+                waiting = False
+                for j in sorted(w):
+                    uname = owners[j][0]
+                    for mm_ in models_of(m):
+                        for u in getattr(mm_, 'uses', []):
+                            if u.name == uname and needs_to_be_resolved(u, 'one'):
+                                waiting = True
+                ctx.count('provider_decisions_through_needs_to_be_resolved')
+                if not waiting and not (w <= resolved):
+                    # (the converse is legitimate: a reference resolved earlier in the SAME step still counts as pending)
+                    live_problem.append(sorted(w - resolved)[0])
+                if waiting:
+                    log.append(('P', i))
+                    return Postponed()
+            elif w == 'never' or not (w <= resolved):
                 log.append(('P', i))
                 return Postponed()
             # the references this one waited for must be visible as resolved in the live model
@@ -291,6 +310,8 @@ def run_exh(ctx, n, idx, struct, allvariants):
         for v in range(24):
             kind, order, split = variants(v, n)
             one(ctx, struct, kind, order, split, {'phase': 'exh', 'n': n, 'idx': idx, 'v': v}, sample=(idx % 41 == 3 and v == 7))
+            if kind == 'single':
+                one(ctx, struct, kind, order, split, {'phase': 'exh', 'n': n, 'idx': idx, 'v': v, 'api': True}, api_wait=True)
     else:
         kind, order, split = variants(idx, n)
         one(ctx, struct, kind, order, split, {'phase': 'exh', 'n': n, 'idx': idx, 'v': idx}, sample=(idx % 997 == 3))
@@ -310,7 +331,7 @@ def run_rand(ctx, i):
     r.shuffle(order)
     kind = r.choice(['single', 'list', 'mixed'])
     split = None if r.random() < 0.5 else set(j for j in range(n) if r.random() < 0.5)
-    one(ctx, tuple(struct), kind, tuple(order), split, {'phase': 'rand', 'i': i}, sample=(i < 2))
+    one(ctx, tuple(struct), kind, tuple(order), split, {'phase': 'rand', 'i': i}, sample=(i < 2), api_wait=(kind == 'single' and i % 2 == 0))
 
 
 def run(ctx):
@@ -334,6 +355,6 @@ def replay(ctx, rep):
     if rep['phase'] == 'exh':
         st = list(structures(rep['n']))[rep['idx']]
         kind, order, split = variants(rep['v'], rep['n'])
-        one(ctx, st, kind, order, split, rep)
+        one(ctx, st, kind, order, split, rep, api_wait=bool(rep.get('api')))
     else:
         run_rand(ctx, rep['i'])
